@@ -186,11 +186,16 @@ def judge(members, blob, password, wd):
             z.close()
         except Exception:
             pass
-    # extraction to a directory: kinds on disk
+    # extraction to a directory: kinds on disk.  The archive is opened by file name here: multi-folder archives without
+    # password and links then take the thread-per-folder path, which computes the folders' positions on its own (seeded
+    # change C06f: PackPos honoured on the sequential path only)
     dest = os.path.join(wd, "x06")
     shutil.rmtree(dest, ignore_errors=True)
+    apath = os.path.join(wd, "x06.7z")
+    with open(apath, "wb") as fh:
+        fh.write(blob)
     try:
-        with py7zr.SevenZipFile(io.BytesIO(blob), password=password) as z:
+        with py7zr.SevenZipFile(apath, password=password) as z:
             z.extractall(path=dest)
         snap = tree_snapshot(dest)
         for m in members:
@@ -207,6 +212,7 @@ def judge(members, blob, password, wd):
     except Exception as ex:
         out.append(("extract-exception", f"path: {type(ex).__name__}: {ex}"))
     shutil.rmtree(dest, ignore_errors=True)
+    os.remove(apath)
     return out
 
 
